@@ -3,7 +3,7 @@ a parser of the CQL text cqlengine renders, and the Python oracle of C37 applied
 
 Spec formats (JSON-able):
   val     : None | int | ['L',[ints]] | ['S',[sorted ints]] | ['M',[[k,v],...]] | ['Q', val]   (InQuoter)
-  qval    : ['v', val] | ['fn', 0|1, ms] | ['tok', [ints], ncols]
+  qval    : ['v', val] | ['fn', 0|1, local_ms, utc_offset_minutes] | ['tok', [ints], ncols]
   clause  : ['where', f, quote, op, qval] | ['notnull', f] | ['assign', f, val] | ['cond', f, val]
           | ['set', f, S|None, 'add'|'remove'|None, S|None] | ['list', f, L|None, 'append'|'prepend'|None, L|None]
           | ['map', f, M, 'update'|'remove'|None, M|None] | ['counter', f, int, int|None]
@@ -63,7 +63,16 @@ def canon_val(x):
 
 
 def canon_atom(e):
-    return e if isinstance(e, int) and not isinstance(e, bool) else -999999
+    """element of a collection -> integer atom.  A nested (frozen) collection is one atomic cell for Cassandra and for the
+    models: it is encoded injectively as an integer (elements 0..997)."""
+    if isinstance(e, int) and not isinstance(e, bool):
+        return e
+    if isinstance(e, (list, tuple)) and all(isinstance(x, int) and 0 <= x < 998 for x in e):
+        c = 1
+        for x in e:
+            c = c * 1000 + x + 1
+        return -c          # negative: never collides with the plain integers used as values
+    return -999999
 
 
 def z(n):
@@ -99,11 +108,23 @@ def opt(x, f):
     return 'None' if x is None else '(Some %s)' % f(x)
 
 
+def fn_off(q):
+    return q[3] if len(q) > 3 else 0
+
+
+def fn_datetime(q):
+    """the datetime handed to MinTimeUUID/MaxTimeUUID: wall clock local_ms after 1970-01-01 in a zone with the given UTC offset"""
+    from datetime import timezone
+    dt = datetime(1970, 1, 1) + timedelta(milliseconds=q[2])
+    off = fn_off(q)
+    return dt.replace(tzinfo=timezone(timedelta(minutes=off))) if off else dt
+
+
 def coq_qval(q):
     if q[0] == 'v':
         return '(QPlain %s)' % coq_val(q[1])
     if q[0] == 'fn':
-        return '(QTimeFn %d %s)' % (q[1], z(q[2]))
+        return '(QTimeFn %d %s %s)' % (q[1], z(q[2]), z(fn_off(q) * 60000))
     return '(QToken %s %d%%nat)' % (zl(q[1]), q[2])
 
 
@@ -163,7 +184,7 @@ def mk_clause(c):
         if q[0] == 'v':
             value = py_val(q[1])
         elif q[0] == 'fn':
-            value = (F.MinTimeUUID if q[1] == 0 else F.MaxTimeUUID)(datetime(1970, 1, 1) + timedelta(milliseconds=q[2]))
+            value = (F.MinTimeUUID if q[1] == 0 else F.MaxTimeUUID)(fn_datetime(q))
         else:
             value = F.Token(*q[1])
             value.set_columns([columns.Integer() for _ in range(q[2])])
@@ -400,7 +421,7 @@ def expected_bindings(spec):
         if q[0] == 'v':
             return [('KWhere', ['Q', q[1]] if spec[3] == 2 else q[1])]
         if q[0] == 'fn' and spec[3] != 2:
-            return [('KWhere', q[2])]
+            return [('KWhere', q[2] - fn_off(q) * 60000)]      # the UTC instant of the given datetime, in ms
         if q[0] == 'tok' and spec[3] != 2 and q[2] == len(q[1]):
             return [('KWhere', v) for v in q[1]]
         return None
@@ -504,6 +525,7 @@ def oracle(st, objs, kind):
 
 # ---------------------------------------------------------------------------------------------- generators
 INTS = [0, 1, 2, 3, 5, -1, 7, 2 ** 31]
+TZ_OFFSETS = [0, 0, 120, -300, 330, 0]      # naive, UTC+02:00, UTC-05:00, UTC+05:30
 PKINTS = [0, 1, 2, 3, 5, -1, 7, 2 ** 31 - 1]
 LISTS = [[], [1], [1, 2], [2, 1, 2], [1, 2, 3], [3, 3], [1, 2, 1, 2, 3], [5, 1, 2, 6]]
 SETS = [[], [1], [1, 2], [1, 2, 3], [2, 5], [0, 7]]
@@ -553,7 +575,7 @@ def gen_clause(rng, kind, part, f):
             vals = [rng.choice(INTS) for _ in range(rng.choice([1, 1, 2, 3]))]
             return ['where', f, False, rng.choice([0, 3, 4, 5, 6]), ['tok', vals, len(vals)]]
         if r < 0.42:
-            return ['where', f, True, rng.choice([0, 3, 4, 5, 6]), ['fn', rng.choice([0, 1]), 1000 * rng.randrange(0, 5000)]]
+            return ['where', f, True, rng.choice([0, 3, 4, 5, 6]), ['fn', rng.choice([0, 1]), 1000 * rng.randrange(0, 5000), rng.choice(TZ_OFFSETS)]]
         if r < 0.5:
             return ['where', f, True, 7, ['v', rng.choice(INTS)]]
         return ['where', f, True, rng.choice([0, 0, 0, 1, 3, 4, 5, 6, 8]), ['v', gen_val(rng) if rng.random() < 0.3 else rng.choice(INTS)]]
@@ -687,7 +709,7 @@ def real_qval(q):
     if q[0] == 'v':
         return py_val(q[1])
     if q[0] == 'fn':
-        return (F.MinTimeUUID if q[1] == 0 else F.MaxTimeUUID)(datetime(1970, 1, 1) + timedelta(milliseconds=q[2]))
+        return (F.MinTimeUUID if q[1] == 0 else F.MaxTimeUUID)(fn_datetime(q))
     raise ValueError(q)
 
 
@@ -769,7 +791,7 @@ def gen_chain(rng):
         elif r < 0.36:
             ops.append(['filter', rng.choice([7, 8, 9]), 7, True, ['v', rng.choice(INTS)]])
         elif r < 0.44:
-            ops.append(['filter', 10, rng.choice([3, 4, 5, 6]), True, ['fn', rng.choice([0, 1]), 1000 * rng.randrange(0, 9999)]])
+            ops.append(['filter', 10, rng.choice([3, 4, 5, 6]), True, ['fn', rng.choice([0, 1]), 1000 * rng.randrange(0, 9999), rng.choice(TZ_OFFSETS)]])
         elif r < 0.52:
             explicit = rng.random() < 0.8
             ops.append(['ftoken', rng.choice([3, 4, 5, 6]) if explicit else 0, explicit, [rng.choice(INTS), rng.choice(INTS)]])
